@@ -1,11 +1,13 @@
 package main
 
 import (
+	"bytes"
 	"encoding/hex"
 	"encoding/json"
 	"fmt"
 	"math/big"
 	"reflect"
+	"strings"
 	"sync"
 	"time"
 
@@ -363,19 +365,24 @@ func c14Alias(t *tr.Writer, id int, c c14Case) {
 	}
 	for ii, in := range inputs {
 		for di, mk := range dests {
-			for _, mode := range []string{"slice", "reader", "pooled"} {
+			for _, mode := range []string{"slice", "reader", "pooled", "simple-slice", "simple-reader"} {
+				if strings.HasPrefix(mode, "simple") && bytes.Contains(in, []byte("r1;")) {
+					continue // (no references in simple mode)
+				}
 				buf := append([]byte(nil), in...)
 				p := mk()
 				var dec *hio.Decoder
 				switch mode {
-				case "slice":
+				case "slice", "simple-slice":
 					dec = hio.NewDecoder(buf)
+				case "simple-reader":
+					dec = hio.NewDecoderFromReader(&chunkReader{b: buf, plan: []int{3, 4, 5, 6}})
 				case "reader":
 					dec = hio.NewDecoderFromReader(&chunkReader{b: buf, plan: []int{3, 4, 5, 6}})
 				default:
 					dec = hio.GetDecoder().ResetBytes(buf)
 				}
-				dec.Simple(false)
+				dec.Simple(strings.HasPrefix(mode, "simple"))
 				func() {
 					defer func() { recover() }()
 					dec.Decode(p)
